@@ -67,7 +67,9 @@ out += ['', 'Every MISSED entry of the multi-seed sweeps was traced to a trigger
         'with every later offset edited, default vectors of composite elements at every small length, families of alike types as value '
         'cases, element types with equal default roots used one after the other, changes to another selector with an invalid value, bit '
         'fields 1..7 bits short of a chunk boundary and None-selected unions were added as fixed cases, and the hash counter was extended '
-        'to hashes made through `settings.merkle_hash` by modules other than tree.py.', '',
+        'to hashes made through `settings.merkle_hash` by modules other than tree.py; the two MISSED entries of the all424 sweeps (C17I, C17Q seed 0) '
+        'likewise: caught with seeds 0-2 after the union-value-on-partial-tree histories were doubled and the read-only iterator was stopped '
+        'exactly before a summarised PAIR of chunks (summarising a single chunk, a leaf already, changes nothing).', '',
         '| change | file(s) touched | ' + ' | '.join(l.replace('.log', '').replace('rounds123_', 'r123 ').replace('_', ' ') for l in logs) + ' |',
         '|---|---|' + '---|' * len(logs)]
 for mid, v in rows.items():
